@@ -227,19 +227,46 @@ PROPS["C18"] = {
     "thorough": [("bvd_core", U64), ("bvd_edit", U64), ("bvd_defaults", U64)],
 }
 
+def bitops_jobs(pairs, ops=("and", "or", "xor")):
+    return [("bvf_bitops", pair(i, j, **BITOPS[o])) for (i, j) in pairs for o in ops]
+PROPS["C04"] = {
+    "quick": bitops_jobs([("u64", "u64"), ("u64", "u8"), ("u8", "u64")]) + jobs("bvf_misc", WQ) + [("bvd_misc", U64)],
+    "thorough": bitops_jobs([(i, j) for i in W4 for j in W4]) + jobs("bvf_misc", W4) + [("bvd_misc", U64)],
+}
+
+
 # property -> prefixes of the executable-contract harnesses (kani/src/harness.rs) used for counterexamples / bounded stand-ins
 PROP_HARNESS = {
     "C01": ["add__", "sub__", "mul__"],
-    "C03": ["or__", "xor__", "add__", "sub__", "edit__", "not__", "shl__", "shr__"],
+    "C02": ["div__"],
+    "C03": ["hist__"],
     "C04": ["and__", "or__", "xor__", "not__"],
     "C05": ["shl__", "shr__", "shlin__", "shrin__"],
     "C06": ["rot__"],
-    "C07": ["edit__"],
+    "C07": ["edit__", "splice__", "extend__"],
     "C08": ["slice__"],
     "C09": ["cmp__"],
+    "C10": ["hash__"],
+    "C11": ["int__"],
+    "C12": ["conv__"],
+    "C13": ["bytes__"],
+    "C14": ["fmt__"],
+    "C15": ["parse__"],
     "C16": ["cnt__"],
-    "C18": ["edit__bvd", "edit__bv"],
-    "C19": ["edit__f"],
+    "C17": ["iter__"],
+    "C18": ["cap__", "edit__bvd", "edit__bv", "extend__bv"],
+    "C19": ["fixedcap__", "edit__f"],
+    "C20": ["forms__"],
+}
+
+for _p in ["C01", "C02", "C03", "C09", "C10", "C11", "C12", "C13", "C14", "C15", "C17", "C20"]:
+    PROPS.setdefault(_p, {"quick": [], "thorough": []})
+PROPS["C19"]["debug_profile_too"] = ["fixedcap__"]
+PROPS["C04"]["quick"] += [("bvd_bitops", dict(U64, **BITOPS[o])) for o in ("and", "or", "xor")]
+PROPS["C04"]["thorough"] += [("bvd_bitops", dict(U64, **BITOPS[o])) for o in ("and", "or", "xor")]
+PROPS["C01"] = {
+    "quick": [("bvf_arith", pair(i, j, **ARITH[o])) for (i, j) in [("u64", "u64"), ("u64", "u8"), ("u8", "u64")] for o in ("add", "sub")] + jobs("int_prims", WQ),
+    "thorough": [("bvf_arith", pair(i, j, **ARITH[o])) for i in W4 for j in W4 for o in ("add", "sub")] + jobs("int_prims", W4),
 }
 
 # -------------------------------------------------------------------------------------------------
@@ -286,9 +313,35 @@ MANIFEST_TEXT["C18"] = dict(
           "spare words zero), and contain no reachable explicit panic (no capacity failure) under A-size."),
     note="Covered so far: Bvd. Not yet under contract: Bv (inline/heap switching), append/prepend growth paths. " + TRUST_NOTE)
 
-def bitops_jobs(pairs, ops=("and", "or", "xor")):
-    return [("bvf_bitops", pair(i, j, **BITOPS[o])) for (i, j) in pairs for o in ops]
-PROPS["C04"] = {
-    "quick": bitops_jobs([("u64", "u64"), ("u64", "u8"), ("u8", "u64")]) + jobs("bvf_misc", WQ) + [("bvd_misc", U64)],
-    "thorough": bitops_jobs([(i, j) for i in W4 for j in W4]) + jobs("bvf_misc", W4) + [("bvd_misc", U64)],
-}
+DYN_NOTE = (" Second engine on every run (never counted as proof): the executable form of the contract (kani/src, written from the property statement, "
+            "u128 reference model) is run natively on the real crate with seeded random inputs over Bvf<u8,2|3>, Bvf<u16,2>, Bvf<u64,2>, Bvd (<= 2 words, spare capacity included) "
+            "and Bv (both storage modes); in the thorough tier Kani 0.68/CBMC explores ALL lengths and values of the small Bvf types (bounded stand-in). "
+            "A failing input is replayed on the real code and reported with the VIOLATION line.")
+EXPL = "exploration"
+def dyn_only(pid, what, todo):
+    MANIFEST_TEXT[pid] = dict(category=EXPL,
+        text=("Bounded/random stand-in only (no deductive proof yet for this property): " + what + DYN_NOTE),
+        note=("NOT a proof. " + todo + " " + TRUST_NOTE),
+        technique="executable contracts on the real crate: seeded random search every run + Kani/CBMC bounded-exhaustive on small types (stand-in for contract units still to be written)")
+dyn_only("C02", "div_rem, /, %, /=, %= against u128 division for nine implementation pairings and native divisors; zero divisors must panic (checked natively).",
+         "Contract units for div_rem (value-level loop invariant prototyped in notes/) are not yet woven; D7 (divisor longer than capacity) was found and fixed.")
+dyn_only("C03", "random histories of up to 6 public operations (23 kinds: edits, arithmetic/logic with operands of another implementation, shifts, rotations, slicing, read) followed by a comparison of EVERY observer and of the next operation against a freshly built vector with the same bits.",
+         "The inductive argument (every unit establishes wf and a functional [bits] clause) holds for the units already under contract (see C04/C05/C06/C07/C08/C16/C18 evidence) but the audit over all public functions is not complete.")
+dyn_only("C09", "==, partial_cmp, <, >= against numeric comparison of the values for eight implementation pairings.", "Contract units for the comparison loops are not yet written.")
+dyn_only("C10", "a recording Hasher: equal values (same and different lengths, inline vs heap, spare capacity) must feed identical bytes.", "Hash units (uninterpreted hasher feed model prototyped) not yet woven; D8 was found and fixed.")
+dyn_only("C11", "TryFrom/From between the six native integer types and Bvf/Bvd/Bv in both directions, Bit conversions, slice conversions, against the documented length/value/error rules.", "Conversion units not yet written; D5 was found and fixed.")
+dyn_only("C12", "all From/TryFrom conversions between Bvf word sizes, Bvd and Bv (length, bits, NotEnoughCapacity exactly when too long), new/into_inner round trip.", "Conversion units not yet written (IArray get_int units are verified).")
+dyn_only("C13", "to_vec/write/from_bytes/read for both endiannesses incl. surplus bits, short input, capacity errors and round trips.", "to_vec/read units not yet written; from_bytes loops are outside Verus (iterator adapters); D3 was found and fixed.")
+dyn_only("C14", "Display/Binary/Octal/LowerHex/UpperHex under 15 format specifications against Rust's formatting of the u128 value.", "Formatter units (pad_integral model) not yet written.")
+dyn_only("C15", "from_binary/from_hex over random strings from an alphabet with valid digits, invalid ASCII and a non-ASCII character (accept set, length, first bad index, capacity error) and parse(format(v)) == v; Bv on both sides of the inline limit.", "Parsing loops are driven by str::chars().enumerate(): outside Verus's front end (DESIGN 2.2); bounded/random is the planned level.")
+dyn_only("C17", "random interleavings of next/next_back/nth/nth_back/size_hint/count/last with arguments up to usize::MAX against std's slice iterator over the same bits.", "BitIterator units not yet woven; D9 was found and fixed.")
+dyn_only("C20", "every owned/borrowed/assign form of + - * / % & | ^ << >> ! and the native-integer forms against each other (identical length and bits), borrowed operands unchanged.", "Generated form units not yet written.")
+MANIFEST_TEXT["C01"] = dict(
+    text=("Proof (add/sub): the real bodies of AddAssign/SubAssign<&Bvf<I2,N2>> for Bvf<I1,N1> (both the same-word-size branch and the re-chunking branch through get_int) are verified against the VALUE-level contract "
+          "val(result) == (val(a) +/- val(b)) mod 2^len, len unchanged, storage beyond len zero, on top of verified contracts of the word primitives cadd/csub/wmul/mask and of the carry-chain/bridge lemmas (spec/prelude/value*.rs)." + DYN_NOTE),
+    note=(COVER_BVF.replace("and the Bvd implementation (symbolic word count, spare capacity included), ", "") + "Not yet under contract: multiplication, Bvd/Bv left operands, &Bvd/&Bv/native right operands (covered only by the second engine). " + TRUST_NOTE))
+MANIFEST_TEXT["C04"] = dict(
+    text=("Proof: BitAnd/BitOr/BitXorAssign<&Bvf<I2,N2>> for Bvf<I1,N1> (both branches), the same three for Bvd with a &Bvd operand, Not for Bvf/&Bvf/Bvd are verified against the bit-by-bit contract with the right operand zero-extended and ignored beyond len; wf of the result is the 'no bit of b at index >= n influences later observations' clause." + DYN_NOTE),
+    note=(COVER_BVF + "Not yet under contract: &Bvd/&Bv/native right operands of Bvf, &Bvf operand of Bvd, Not for &Bvd, Bv dispatch (covered only by the second engine). " + TRUST_NOTE))
+for _p in ("C05", "C06", "C07", "C08", "C16", "C18", "C19"):
+    MANIFEST_TEXT[_p]["text"] += DYN_NOTE
